@@ -355,7 +355,18 @@ def r04_6(ctx: Ctx):
             ok = False
             where = norm(p)[:70] if p is not None else "?"
             if pname == "maxfun":
-                if isinstance(p, ast.Compare) and all(isinstance(c, ast.Constant) and c.value is None for c in p.comparators):
+                # through max / min / int / arithmetic the value may still only end up as the cutoff
+                q, hops = p, 0
+                while isinstance(q, (ast.Call, ast.BinOp)) and hops < 4 and (not isinstance(q, ast.Call) or norm(q.func) in ("max", "min", "int")):
+                    q = par.get(id(q))
+                    hops += 1
+                if hops and isinstance(q, ast.keyword) and q.arg == "eval_cutoff":
+                    ok = True
+                elif hops and isinstance(q, ast.Call) and norm(q.func) in ("EvalCutoffProblem",):
+                    ok = True
+                if ok:
+                    pass
+                elif isinstance(p, ast.Compare) and all(isinstance(c, ast.Constant) and c.value is None for c in p.comparators):
                     ok = True
                 elif isinstance(p, ast.IfExp) and p.test is u:
                     ok = True
